@@ -130,6 +130,15 @@ func (g *Group[K, V]) Do(key K, fn func() (V, error)) (v V, err error, shared bo
 	return c.val, c.err, true
 }
 
+// Forget tells the group to forget about a key: later calls of Do for this
+// key run their function instead of joining a call that is already in
+// flight. Callers that have joined already still receive its result.
+func (g *Group[K, V]) Forget(key K) {
+	g.mu.Lock()
+	delete(g.m, key)
+	g.mu.Unlock()
+}
+
 // doCall handles the single call for a key.
 func (g *Group[K, V]) doCall(c *call[V], key K, fn func() (V, error)) {
 	normalReturn := false
